@@ -254,3 +254,15 @@ func H_Estaking_Distribution_BeginBlock_EdenB() { distrBeginBlock(1, false, true
 //vrf:bound as above with uusdc and ueden balances symbolic in [0, 1e18] and no uedenb
 //vrf:max-paths 6000
 func H_Estaking_Distribution_BeginBlock_EdenUsdc() { distrBeginBlock(1, true, false) }
+
+//vrf:summary (github.com/cosmos/cosmos-sdk/x/staking/keeper.Keeper).TotalBondedTokens => sumSdkTotalBonded
+//vrf:summary (github.com/cosmos/cosmos-sdk/x/staking/keeper.Keeper).IterateBondedValidatorsByPower => sumSdkIterBonded
+//vrf:summary (github.com/cosmos/cosmos-sdk/x/distribution/keeper.Keeper).GetCommunityTax => sumCommunityTax
+//vrf:summary (github.com/cosmos/cosmos-sdk/x/distribution/keeper.Keeper).AllocateTokensToValidator => sumAllocate
+//vrf:summary (cosmossdk.io/collections.Item[github.com/cosmos/cosmos-sdk/x/distribution/types.FeePool]).Get[github.com/cosmos/cosmos-sdk/x/distribution/types.FeePool] => sumFeePoolGet
+//vrf:summary (cosmossdk.io/collections.Item[github.com/cosmos/cosmos-sdk/x/distribution/types.FeePool]).Set[github.com/cosmos/cosmos-sdk/x/distribution/types.FeePool] => sumFeePoolSet
+//vrf:cover done allocated
+//vrf:bound as the quick variants with 0..2 SDK validators and all three balances (uusdc, ueden, uedenb) symbolic at once
+//vrf:max-paths 40000
+//vrf:tier thorough
+func H_Estaking_Distribution_BeginBlock_All() { distrBeginBlock(2, true, true) }
